@@ -111,7 +111,15 @@ pub fn gen_slsa_v01(r: &mut Rng) -> Value {
     if r.chance(1, 2) {
         let mut rec = Map::new();
         rec.insert("type".into(), Value::String(gen_string(r)));
-        opt!(r, rec, "definedInMaterial", json!(r.below(5)));
+        // (an index: small as a rule, now and then at the edges of what the member's type holds)
+        let dim: u64 = match r.below(8) {
+            0 => u64::MAX,
+            1 => 1u64 << 63,
+            2 => (1u64 << 63) - 1,
+            3 => u32::MAX as u64 + 1,
+            _ => r.below(5) as u64,
+        };
+        opt!(r, rec, "definedInMaterial", json!(dim));
         opt!(r, rec, "entryPoint", Value::String(gen_string(r)));
         opt!(r, rec, "arguments", Value::String(gen_string(r)));
         opt!(r, rec, "environment", Value::String(gen_string(r)));
